@@ -173,7 +173,8 @@ class PuritySim:
             "p_evict": r.choice([0.03, 0.08, 0.15]) if fault else 0.0,
             "p_rng": r.choice([0.02, 0.06]) if fault else 0.0,
             "p_solver": r.choice([0.0, 0.04, 0.1]) if fault else 0.0,
-            "profile_on": fault and r.random() < 0.2,
+            "profile_on": fault and r.random() < 0.4,
+            "profile_repeats": r.choice([1, 2, 2, 3]),  # general.profiling.repeats: every profiled function body runs that many times
             "conf": {k: r.choice(v) for k, v in CONF_KNOBS.items() if r.random() < 0.5},
             "p_uniform": 0.3,
         }
@@ -239,6 +240,8 @@ class PuritySim:
         for k, v in self.knobs.get("conf", {}).items():
             boot.set_conf(["general", "inversion", k], v)
         self.clock = seams.install_clock() if self.knobs.get("profile_on") else None
+        if self.knobs.get("profile_on"):
+            boot.set_conf(["general", "profiling", "repeats"], int(self.knobs.get("profile_repeats", 1)))
         np.random.seed(self.run_seed % (2**32))
         self.ref = refexec.InprocReference() if self.cfg.get("oracle") == "inproc" else refexec.ForkReference()
         self.world = build.World()
